@@ -614,7 +614,7 @@ def run_property(mod, tier, seed, only=None):
             inconclusive=len(inconclusive),
             inconclusive_list=inconclusive[:60],
             checker_cmd=f"./check {prop} --tier {tier}",
-            trusted_base=meta.get("trusted_base", []) + ["z3 %s (nlsat)" % z3.get_version_string(), "symx scalar/shim layer (validated by ./check selftest)",
+            trusted_base=meta.get("trusted_base", []) + ["z3 %s (nlsat)" % z3.get_version_string(), "symx scalar/shim layer (cross-checked on every run: each case re-executed on the unshimmed float code with random inputs)",
                                                           "real-arithmetic semantics of the Python source (IEEE rounding outside the claim)"],
             cases=len(cases), paths_explored=paths_total, paths_pruned_infeasible=stats_tot["infeasible"] + pruned_late, paths_cut=stats_tot["cut"],
             vacuous_paths=vacuous, queries=queries, solver_time_s=round(solver_s, 1),
